@@ -39,7 +39,7 @@ def eval_place(env, scrut, place):
             variant = e.get("n")
             continue
         if isinstance(e, dict) and "f" in e:
-            t = ("field", t, variant, e.get("n"))
+            t = ("field", t, variant, e.get("n") if e.get("n") is not None else str(e["f"]))
             variant = None
             continue
         return ("unknown", "projection %r" % (e,))
@@ -243,3 +243,58 @@ def raw_source(body, op, depth=12):
             t = t2[2][0]
             continue
         return t2, transforms
+
+
+def simplify(t):
+    """projection of a known aggregate: field k of a tuple built from (a, b, ..) is its k-th operand; Ok/Some/Continue payloads
+    likewise (the variant must match)"""
+    if not isinstance(t, tuple):
+        return t
+    if t[0] == "field":
+        base = simplify(t[1])
+        if isinstance(base, tuple) and base[0] == "agg" and t[3] is not None and str(t[3]).isdigit() and int(t[3]) < len(base[3]) \
+                and (base[1] == "tuple" or t[2] is None or t[2] == base[2]):
+            return simplify(base[3][int(t[3])])
+        return ("field", base, t[2], t[3])
+    if t[0] == "call":
+        return ("call", t[1], tuple(simplify(a) for a in t[2]))
+    if t[0] == "agg":
+        return ("agg", t[1], t[2], tuple(simplify(a) for a in t[3]))
+    return t
+
+
+def calls_in(t, out=None):
+    """names of all calls in a term"""
+    out = out if out is not None else []
+    if isinstance(t, tuple) and t:
+        if t[0] == "call":
+            out.append(t[1])
+        for x in t:
+            if isinstance(x, tuple):
+                calls_in(x, out)
+    return out
+
+
+def has_kind(t, kind):
+    if isinstance(t, tuple) and t:
+        if t[0] == kind:
+            return True
+        return any(has_kind(x, kind) for x in t if isinstance(x, tuple))
+    return False
+
+
+def cut_at(t, names):
+    """replace the arguments of calls to `names` by nothing: what such a call was applied to is not part of the value path"""
+    if not isinstance(t, tuple):
+        return t
+    if t[0] == "call":
+        if t[1] in names:
+            return ("call", t[1], ())
+        return ("call", t[1], tuple(cut_at(a, names) for a in t[2]))
+    if t[0] == "agg":
+        return ("agg", t[1], t[2], tuple(cut_at(a, names) for a in t[3]))
+    if t[0] == "field":
+        return ("field", cut_at(t[1], names), t[2], t[3])
+    if t[0] == "binop":
+        return ("binop", t[1], tuple(cut_at(a, names) for a in t[2]))
+    return t
